@@ -138,7 +138,7 @@ class PublicPerm(Case):
 
     def inputs(self, mk):
         p = self.params
-        specs = [shell_spec(mk, "ABCD"[i], l, K, M) for i, (l, K, M) in enumerate(zip(p["ls"], p["Ks"], p["Ms"]))]
+        specs = cm.specs_from(mk, p)
         return dict(specs=specs, C=[mk.var("C" + x) for x in "xyz"], P=[mk.var("P" + x) for x in "xyz"],
                     q=[mk.var("q0"), mk.var("q1")], T=None)
 
@@ -172,7 +172,7 @@ class PublicSym(Case):
 
     def inputs(self, mk):
         p = self.params
-        specs = [shell_spec(mk, "ABCD"[i], l, K, M) for i, (l, K, M) in enumerate(zip(p["ls"], p["Ks"], p["Ms"]))]
+        specs = cm.specs_from(mk, p)
         return dict(specs=specs, C=[mk.var("C" + x) for x in "xyz"], P=[mk.var("P" + x) for x in "xyz"],
                     q=[mk.var("q0"), mk.var("q1")], T=None)
 
